@@ -50,6 +50,7 @@ fn families(t: Tier) -> Vec<(&'static str, u64)> {
     vec![
         ("topo", 3 * (T1 + T2 + T3 + t.n(0, T4))),
         ("rand", t.n(6_000, 400_000)),
+        ("mixed", t.n(6_000, 400_000)),
         ("selfchain", t.n(204, 2_040)),
         ("diamond", t.n(300, 6_000)),
         ("fanin", t.n(300, 6_000)),
@@ -111,6 +112,13 @@ fn gen(ctx: &Ctx, fam: &str, k: u64, r: &mut Rng) -> Program {
             cfg.min_ops = 2;
             cfg.max_ops = if ctx.tier == Tier::Thorough { 40 } else { 40 };
             cfg.untracked_eighths = 2;
+            gen_program(r, &cfg)
+        }
+        "mixed" => {
+            // user-defined nodes embedded among built-in operations (incl. sum(0) aliases, broadcasting, matmul)
+            let mut cfg = GenCfg::exact();
+            cfg.max_ops = 12;
+            cfg.conv = false;
             gen_program(r, &cfg)
         }
         "selfchain" => {
@@ -219,14 +227,18 @@ pub fn run_case(ctx: &mut Ctx, fam: &str, k: u64, r: &mut Rng) {
     let mut expect_call = vec![false; p.nodes.len()];
     let mut consumers_in_graph = vec![0usize; p.nodes.len()];
     for (i, n) in p.nodes.iter().enumerate() {
-        if let Node::Op { args, .. } = n {
+        if let Node::Op { args, kind, .. } = n {
+            if kind.is_alias() {
+                continue;
+            }
             // no toggles in these programs: a handle's flag at use time is its flag at creation
             let any_tracked = args.iter().any(|a| flags[*a]);
             if reach[i] && any_tracked {
-                expect_call[i] = true;
+                // only user-defined nodes are observable at the API boundary
+                expect_call[i] = kind.is_custom();
                 for a in args {
                     if flags[*a] {
-                        consumers_in_graph[*a] += 1;
+                        consumers_in_graph[p.base(*a)] += 1;
                     }
                 }
             }
@@ -292,17 +304,19 @@ pub fn run_case(ctx: &mut Ctx, fam: &str, k: u64, r: &mut Rng) {
         ctx.violation(&format!("C11|{}|invocation-count", fam), format!("{} invocations for {} reachable operation nodes\nprogram: {}", log.len(), n_expected, p.pretty()));
         return;
     }
-    // order: every consumer in the graph is evaluated before the node
+    // order: every consumer in the graph is evaluated before the node (direct user-node-to-user-node edges, through
+    // aliases)
     for (i, n) in p.nodes.iter().enumerate() {
         if !expect_call[i] {
             continue;
         }
         if let Node::Op { args, .. } = n {
             for a in args {
-                if flags[*a] && expect_call[*a] && pos[&i] > pos[a] {
+                let b = p.base(*a);
+                if flags[*a] && expect_call[b] && pos[&i] > pos[&b] {
                     ctx.violation(
                         &format!("C11|{}|invoked-before-consumer", fam),
-                        format!("closure of n{} ran before its consumer n{} had contributed\nprogram: {}", a, i, p.pretty()),
+                        format!("closure of n{} ran before its consumer n{} had contributed\nprogram: {}", b, i, p.pretty()),
                     );
                     return;
                 }
@@ -312,7 +326,12 @@ pub fn run_case(ctx: &mut Ctx, fam: &str, k: u64, r: &mut Rng) {
     // complete adjoint
     let bound = shadow_bound(&p, &seedv, root);
     let exact = bound <= exact_bound() || fam == "selfchain";
+    let kink = program_has_kink(&p, &rr.vals);
     for e in &log {
+        if kink {
+            ctx.count("adjoints_skipped_kink", 1);
+            continue;
+        }
         let (want, _) = match expected_gradient(&p, e.node, &seedv, root) {
             Some(x) => x,
             None => continue,
